@@ -123,7 +123,7 @@ class OpTableUnit:
                     o.status = "undecided"; o.detail = "unclassified: " + repr(r["failed"][:3])
             else:
                 n2 = [x for x in named if x[0].startswith("C02")] + panics
-                n3 = [x for x in named if x[0].startswith("C03")]
+                n3 = [x for x in named if x[0].startswith("C03") or "unsound" in x[0]]
                 o2.status = "failed" if n2 else "discharged"; o2.detail = "\n".join(f"{d} @ {l}" for d, l in n2); o2.time_s = r["time"]
                 o3.status = "failed" if n3 else "discharged"; o3.detail = "\n".join(f"{d} @ {l}" for d, l in n3)
         res.obls = [o2, o3]
